@@ -171,7 +171,7 @@ def run_case(case):
         kw = {n: mk(n) for n in ("on_open", "on_message", "on_error", "on_close")}
         if case.get("on_reconnect", True):
             kw["on_reconnect"] = mk("on_reconnect")
-        app = websocket.WebSocketApp("ws://c15.test/", **kw)
+        app = websocket.WebSocketApp(("wss" if case.get("secure") else "ws") + "://c15.test/", **kw)
         rk = {"reconnect": interval}
         if ping:
             rk.update(ping_interval=ping[0], ping_timeout=ping[1])
@@ -315,8 +315,8 @@ def _cls(obs, case, natt):
     succ = sum(1 for k in kinds if k not in ("refused", "reject"))
     nt = natt >= 2 and fails >= 1 and succ >= 1
     obs.cls = ("external" if case.get("external") else "builtin", f"attempts:{min(natt, 6)}", f"stop:{'app-close' if case.get('close_at') is not None else kinds[-1]}",
-               f"on_reconnect:{int(case.get('on_reconnect', True))}", f"ping:{int(bool(case.get('ping')))}") + tuple(sorted({f"kind:{k}" for k in kinds}))
-    obs.nt = repr((case["attempts"], case["interval"], case.get("external"), case.get("close_at"), case.get("on_reconnect", True), case.get("ping"), case.get("choices"))) if nt else None
+               f"on_reconnect:{int(case.get('on_reconnect', True))}", f"ping:{int(bool(case.get('ping')))}", f"tls:{int(bool(case.get('secure')))}") + tuple(sorted({f"kind:{k}" for k in kinds}))
+    obs.nt = repr((case["attempts"], case["interval"], case.get("external"), case.get("close_at"), case.get("on_reconnect", True), case.get("ping"), case.get("choices"), case.get("secure"))) if nt else None
     return obs
 
 
@@ -366,7 +366,8 @@ def cases(draw):
         if k == "reject":
             a["status"] = draw(st.sampled_from([400, 404, 500, 503]))
         att.append(a)
-    c = {"attempts": att, "interval": interval, "external": ext, "on_reconnect": draw(st.booleans()), "ping": ping, "run_for": 200.0}
+    c = {"attempts": att, "interval": interval, "external": ext, "on_reconnect": draw(st.booleans()), "ping": ping, "run_for": 200.0,
+         "secure": draw(st.integers(0, 3)) == 0}
     stop = draw(st.sampled_from(["server-close", "app-close", "app-close-any"]))
     if stop == "server-close":
         att.append({"kind": "server-close", "after": draw(st.sampled_from([0.0, 0.5, 3.0])), "code": draw(st.sampled_from([1000, 1001, 4000])), "hs_delay": 0.0})
